@@ -4,17 +4,10 @@ import CpModel.BlockWait
 import CpModel.ThreadMgr
 import CpModel.C20Admit
 /-!
-  Driver for C20.  One case per line; the output is the snapshot of the shared state before the
-  first step and after every step of the schedule, joined by `|`.  A step of a thread that the
-  model considers not schedulable is flagged with a leading `-` (otherwise `+`).
-
-    M <asIs|fixed> <freq 0|1> <daemon 0|1> <calls: start,stop,graceful | -> <sched: c,w1,w2,… | ->
-        snapshot  C=<ctl label>;T=<N|0|1>;R=<returned calls>;W=<label>:<running>:<invocations>/…
-    B <calls: stop,start,graceful,exit,restart | -> <sched: m,x,… | ->
-        snapshot  m=<label>;x=<label>;S=<state>;X=<execv>;P=<'main' publications>;D=<execv done>
-    T <asIs|fixed> <nstops> <scripts: ar/aar/… (a = acquire, r = release) | -> <sched: s,t1,t2,… | ->
-        snapshot  s=<label>;r=<label>,…;D=<ident:index,… in slot order>;J=<#publications>
-        and after the last snapshot `#` + the journal `+i@tN` (start_thread i by tN), `-i@tN`, `-i@s`
+  Driver for C20: trace inclusion modulo stuttering.  One case per line: the scenario and the
+  observable trace recorded from the real threads (driven at shared-state accesses and primitive
+  calls); the answer says whether the model admits the trace (see `CpModel/C20Admit.lean`).
+  Nothing here depends on source lines of the code under test.
 -/
 open CpModel
 
@@ -48,54 +41,6 @@ def parseTid (s : String) : Option Tid :=
     | _ => none
   else none
 
-def cLabel : CPc → String
-  | .st2 => "Monitor.start+2" | .st3 => "Monitor.start+3" | .st4 => "Monitor.start+4"
-  | .st5a => "Monitor.start+5" | .st6 => "Monitor.start+6" | .st5b => "Monitor.start+5"
-  | .st7 => "Monitor.start+7" | .st8 => "Monitor.start+8"
-  | .bs7 => "BackgroundTask.start+7" | .bs8 => "BackgroundTask.start+8"
-  | .st9 => "Monitor.start+9" | .st11 => "Monitor.start+11"
-  | .sp2 => "Monitor.stop+2" | .sp3a => "Monitor.stop+3" | .sp4 => "Monitor.stop+4"
-  | .sp3b => "Monitor.stop+3" | .sp6 => "Monitor.stop+6" | .sp7 => "Monitor.stop+7"
-  | .sp8 => "Monitor.stop+8" | .cn2 => "BackgroundTask.cancel+2" | .sp9 => "Monitor.stop+9"
-  | .sp10 => "Monitor.stop+10" | .sp11 => "Monitor.stop+11" | .sp11w => "Monitor.stop+11!"
-  | .sp12 => "Monitor.stop+12" | .sp13 => "Monitor.stop+13"
-  | .gr2 => "Monitor.graceful+2" | .gr3 => "Monitor.graceful+3"
-  | .done => "done" | .crashed => "crashed"
-
-def wLabel (m : Mode) (pc : WPc) : String :=
-  let off (a f : Nat) : String := s!"BackgroundTask.run+{match m with | .asIs => a | .fixed => f}"
-  match pc with
-  | .created => "created" | .held => "BackgroundTask.run+0" | .arm => "BackgroundTask.run+2"
-  | .loop => off 3 2 | .slp => off 4 3 | .chk => off 5 4 | .ret => off 6 5
-  | .try_ => off 7 6 | .call => off 8 7 | .done => "done"
-
-def snapM (p : Params) (c : Cfg) : String :=
-  let t := match c.thread with
-    | none => "N"
-    | some k => b01 (c.ws k).running
-  let ws := (List.range c.nw).filterMap fun i =>
-    let w := c.ws i
-    if w.pc = .created then none else some s!"{wLabel p.mode w.pc}:{b01 w.running}:{w.calls}"
-  s!"C={cLabel c.cpc};T={t};R={c.nret};W={joinOr "/" ws}"
-
-def runM (p : Params) (c : Cfg) (sched : List Tid) : List String :=
-  match sched with
-  | [] => []
-  | t :: ts =>
-    let e := enabled c t
-    let c' := step p c t
-    ((if e then "+" else "-") ++ snapM p c') :: runM p c' ts
-
-def caseM (f : List String) : Option String :=
-  match f with
-  | [mode, freq, daemon, calls, sched] => do
-    let m ← parseMode mode
-    let cs ← (splitList calls).mapM parseCall
-    let sc ← (splitList sched).mapM parseTid
-    let p : Params := { mode := m, freqPos := freq == "1", daemon := daemon == "1" }
-    let c := Monitor.init cs
-    pure ("|".intercalate (("+" ++ snapM p c) :: runM p c sc))
-  | _ => none
 end M
 
 /-! ### B -/
@@ -120,46 +65,6 @@ def parseForeign (s : String) : Option (List Bool) :=
   if s == "-" then some [] else
   s.toList.mapM fun ch => if ch == 'n' then some false else if ch == 'd' then some true else none
 
-def mLabel : MPc → String
-  | .b10 => "Bus.block+10" | .b11 => "Bus.block+11" | .w2 => "Bus.wait+2" | .w4 => "Bus.wait+4"
-  | .w5 => "Bus.wait+5" | .w6 => "Bus.wait+6" | .tail => "tail" | .done => "done"
-  | .jn => "join-loop" | .jw => "join!" | .ex => "if-execv" | .dx => "do-execv"
-
-def xLabel : XPc → String
-  | .s2 => "Bus.stop+2" | .s3 => "Bus.stop+3" | .s4 => "Bus.stop+4" | .s5 => "Bus.stop+5"
-  | .s6 => "Bus.stop+6"
-  | .a2 => "Bus.start+2" | .a4 => "Bus.start+4" | .a5 => "Bus.start+5" | .a6 => "Bus.start+6"
-  | .a7 => "Bus.start+7" | .a8 => "Bus.start+8" | .a9 => "Bus.start+9"
-  | .g2 => "Bus.graceful+2" | .g3 => "Bus.graceful+3"
-  | .r7 => "Bus.restart+7" | .r8 => "Bus.restart+8"
-  | .e2 => "Bus.exit+2" | .e3 => "Bus.exit+3" | .e4 => "Bus.exit+4" | .e5 => "Bus.exit+5"
-  | .e7 => "Bus.exit+7" | .e8 => "Bus.exit+8" | .e9 => "Bus.exit+9" | .e12 => "Bus.exit+12"
-  | .e20 => "Bus.exit+20"
-  | .done => "done" | .osExit => "osexit"
-
-def showSt : St → String
-  | .stopped => "STOPPED" | .starting => "STARTING" | .started => "STARTED"
-  | .stopping => "STOPPING" | .exiting => "EXITING"
-
-def snapB (c : BlockWait.Cfg) : String :=
-  s!"m={mLabel c.mpc};x={xLabel c.xpc};S={showSt c.state};X={b01 c.execv};P={c.pubs};D={b01 c.execvDone}"
-
-def runB (c : BlockWait.Cfg) (sched : List BlockWait.Tid) : List String :=
-  match sched with
-  | [] => []
-  | t :: ts =>
-    let e := BlockWait.enabled c t
-    let c' := BlockWait.step c t
-    ((if e then "+" else "-") ++ snapB c') :: runB c' ts
-
-def caseB (f : List String) : Option String :=
-  match f with
-  | [calls, sched] => do
-    let cs ← (splitList calls).mapM parseBCall
-    let sc ← (splitList sched).mapM parseBTid
-    let c := BlockWait.init .started cs
-    pure ("|".intercalate (("+" ++ snapB c) :: runB c sc))
-  | _ => none
 end B
 
 /-! ### T -/
@@ -180,50 +85,6 @@ def parseTTid (s : String) : Option ThreadMgr.Tid :=
     | _ => none
   else none
 
-def rLabel : RPc → String
-  | .a6 => "ThreadManager.acquire_thread+6" | .a7 => "ThreadManager.acquire_thread+7"
-  | .a10 => "ThreadManager.acquire_thread+10" | .a11 => "ThreadManager.acquire_thread+11"
-  | .a12 => "ThreadManager.acquire_thread+12"
-  | .r2 => "ThreadManager.release_thread+2" | .r3 => "ThreadManager.release_thread+3"
-  | .r4 => "ThreadManager.release_thread+4" | .r5 => "ThreadManager.release_thread+5"
-  | .done => "done"
-
-def sLabel : SPc → String
-  | .s2 => "ThreadManager.stop+2" | .s3 => "ThreadManager.stop+3" | .s4 => "ThreadManager.stop+4"
-  | .f2 => "ThreadManager.stop+2" | .f5 => "ThreadManager.stop+5" | .f6 => "ThreadManager.stop+6"
-  | .f7 => "ThreadManager.stop+7" | .done => "done" | .rterr => "rterr"
-
-def showEv : Ev → String
-  | .start i t => s!"+{i}@t{t + 1}"
-  | .stop i (some t) => s!"-{i}@t{t + 1}"
-  | .stop i none => s!"-{i}@s"
-
-def snapT (c : ThreadMgr.Cfg) : String :=
-  let rs := (List.range c.nr).map fun t => rLabel (c.rs t).pc
-  let d := (keys c).map fun k => s!"t{k + 1}:{match c.d k with | some v => toString v | none => "?"}"
-  s!"s={sLabel c.spc};r={joinOr "," rs};D={joinOr "," d};J={c.journal.length}"
-
-def runT (m : ThreadMgr.Mode) (c : ThreadMgr.Cfg) (sched : List ThreadMgr.Tid) :
-    List String × ThreadMgr.Cfg :=
-  match sched with
-  | [] => ([], c)
-  | t :: ts =>
-    let e := ThreadMgr.enabled c t
-    let c' := ThreadMgr.step m c t
-    let (rest, cf) := runT m c' ts
-    (((if e then "+" else "-") ++ snapT c') :: rest, cf)
-
-def caseT (f : List String) : Option String :=
-  match f with
-  | [mode, nstops, scripts, sched] => do
-    let m ← parseTMode mode
-    let n ← nstops.toNat?
-    let ss ← (splitList scripts "/").mapM parseOps
-    let sc ← (splitList sched).mapM parseTTid
-    let c := ThreadMgr.init m ss n
-    let (snaps, cf) := runT m c sc
-    pure ("|".intercalate (("+" ++ snapT c) :: snaps) ++ "#" ++ joinOr "," (cf.journal.map showEv))
-  | _ => none
 end T
 
 
@@ -343,9 +204,6 @@ end A
 
 def step (line : String) : String :=
   match Proto.fields line with
-  | "M" :: rest => (caseM rest).getD "bad-op"
-  | "B" :: rest => (caseB rest).getD "bad-op"
-  | "T" :: rest => (caseT rest).getD "bad-op"
   | "AM" :: rest => (admitM rest).getD "bad-op"
   | "AB" :: rest => (admitB rest).getD "bad-op"
   | "AT" :: rest => (admitT rest).getD "bad-op"
